@@ -4,6 +4,7 @@ import json
 import os
 import shutil
 
+import code_tie
 import vlib
 from vlib import coq_str
 
@@ -31,11 +32,8 @@ META = {
 
 MODEL = ["theories/Caco/NamesCorr.vo"]
 PROOFS = ["theories/Props/C12.vo"]
-STATEMENT_FILES = ["theories/Props/C12.v", "theories/Caco/NamesGen.v", "theories/Caco/CodeRefine.v"]
-# Functions whose Go body is translated to Gallina on every run (gen/gotrans.go -> Gen/CodeCaco.v) and
-# proved equal to the model for all inputs (Caco/CodeRefine.v, C12_code_*): a semantic tie, in addition
-# to the frozen source text of Caco/NamesGen.v.
-SEMANTIC_TIE = ["caco3.makeRelPath", "caco3.makePath"]
+STATEMENT_FILES = ["theories/Props/C12.v", "theories/Caco/NamesGen.v"]
+SEMANTIC_TIE = code_tie.functions("C12")   # Go bodies proved equal to the model (Props/C12Code.v)
 
 ERR = {"": 0, "nofiles": 1, "listerr": 2, "badpat": 3}
 KIND = {"f": "TFile", "d": "TDir", "lf": "TLinkFile", "ld": "TLinkDir", "lb": "TLinkBad"}
@@ -348,8 +346,7 @@ def run(ck):
         ck.discharged = list(ck.obligations)
     if ck.thorough and proofs_ok:
         ck.coqchk(["Verif.Props.C12"])
-    ck.code_cex("Caco", force=not proofs_ok)
-    ck.coverage["semantic_tie"] = SEMANTIC_TIE
+    code_tie.run(ck, "C12")
 
     scratch = os.environ.get("VERIF_SCRATCH") or os.path.join(vlib.BUILD, "scratch")
     scratch = os.path.join(scratch, "c12")
@@ -428,8 +425,6 @@ def run(ck):
                     " -> harness c12 vs vm_compute of Caco/NamesCorr.v)",
         trusted=["Coq 8.16.1 kernel + vm_compute",
                  "translator gen/caco_names.go (exclusion lists, suffixes, source text, resolver-call table)",
-                 "translator gen/gotrans.go + Lib/GoLib.v (Go body -> Gallina, proved equal to the model for all "
-                 "inputs: %s)" % ", ".join(SEMANTIC_TIE),
                  "harness/cmd/c12 + checks/c12.py comparison and oracle", "caco3/verif_names.go shim",
                  "modelled not verified: path.Match, filepath.Match, filepath.Glob, filepath.WalkDir, "
                  "utf8.DecodeRuneInString, filepath.Rel under srcDir, the OS file system"],
